@@ -512,10 +512,41 @@ func (c *Cfg) name() string {
 }
 
 // newRouter may panic (invalid option combination); the caller records that.
+func abs(n int) int {
+	if n < 0 {
+		return -n
+	}
+	return n
+}
+
+// viaGroup: some configurations (chosen by their own shape, so that a replay makes the same choice) are built through
+// Group.New on a group that carries DECOY options of the same kind; the router's own options come later in the list and win.
+func (c *Cfg) viaGroup() bool {
+	return (c.Cors.On && (len(c.Cors.Origins)+len(c.Cors.Allow)+abs(c.Cors.MaxAge))%2 == 1) || (c.Domain != "" && len(c.Domain)%2 == 1)
+}
+
 func (e *env) newRouter(c *Cfg) *mux.Router[*H] {
-	return mux.NewRouter[*H](c.name(), e.call, &H{kind: "404"},
-		func(n types.Node) *H { return &H{kind: "405", node: n} },
-		func(n types.Node) *H { return &H{kind: "opt", node: n} }, c.options(e)...)
+	b405 := func(n types.Node) *H { return &H{kind: "405", node: n} }
+	bopt := func(n types.Node) *H { return &H{kind: "opt", node: n} }
+	opts := c.options(e)
+	var r *mux.Router[*H]
+	if c.viaGroup() {
+		decoys := []mux.Option{}
+		if c.Domain != "" {
+			decoys = append(decoys, mux.WithURLDomain("https://decoy.invalid"))
+		}
+		if c.Cors.On {
+			decoys = append(decoys, mux.WithCORS([]string{"https://decoy.invalid"}, []string{"X-Decoy"}, []string{"X-Decoy"}, 9, false))
+		}
+		g := mux.NewGroup[*H](e.call, &H{kind: "404"}, b405, bopt, decoys...)
+		r = g.New(c.name(), nil, opts...)
+	} else {
+		r = mux.NewRouter[*H](c.name(), e.call, &H{kind: "404"}, b405, bopt, opts...)
+	}
+	if c.Cors.On { // a second router built from the SAME option values must leave the first one alone
+		mux.NewRouter[*H](c.name()+"-twin", e.call, &H{kind: "404"}, b405, bopt, opts...)
+	}
+	return r
 }
 
 func cfgJSON(c *Cfg) string {
